@@ -603,4 +603,7 @@ func TestVerifC38(t *testing.T) {
 	if env.Shard == 0 {
 		rec.Count("cases_in_product", int64(base))
 	}
+	if only < 0 {
+		vRunHistory(t, rec, fx)
+	}
 }
